@@ -58,7 +58,7 @@ func registry() map[string]*propSpec {
 				{W: 4, S: &scen.Dec{Mode: "c20"}}, {W: 2, S: &scen.DecArshal{Mode: "c05"}},
 				{W: 2, S: &scen.Enc{Mode: "c06"}}, {W: 2, S: &scen.Enc{Mode: "c07"}},
 				{W: 4, S: &scen.ArshalMarshal{Mode: "c02"}}, {W: 2, S: &scen.Dispatch{}}, {W: 1, S: &scen.MergeChain{}}, {W: 2, S: &scen.Scope{}},
-				{W: 1, S: &scen.Hist{}},
+				{W: 1, S: &scen.Hist{}}, {W: 3, S: &scen.V1Misc{}},
 			}}
 		}, QuickRuns: 60000, ThorRuns: 1500000, Chunk: 1500, ResetCache: true,
 			Rule: "each run = either a depth-boundary run (a tower nested 9998..10002 deep in a drawn array/object mix with a drawn leaf incl. empty containers, pushed through one of 25 paths: ReadToken/ReadValue/SkipValue loops and token/value splits over a chunked reader, IsValid, Format, Compact, Indent, Canonicalize, WriteToken, WriteValue and token/value splits, Marshal/MarshalWrite/MarshalEncode of deep Go values through []any, map[string]any, pointer chains and recursive slice/map types incl. a peer that re-enters Marshal half-way down, Unmarshal/UnmarshalRead into any and into a linked struct; or a cyclic Go value through pointer, map, slice, interface, pointer-to-pointer (child process), struct ring, deep-then-cycle) with the oracle '10000 accepted, 10001 refused with an error, cycles yield an error'; or one run of any other scenario of this framework (dec, enc, arshal, dispatch, merge, scope, hist) with only the panic/livelock monitor armed. distinct = hash of the run's plan signature; all depth runs count as non-trivial.",
@@ -295,6 +295,8 @@ const maxSigs = 1 << 19
 // when one run exceeds the wall-clock limit (suspected non-termination).
 var hangMarker string
 var traceFile string
+var curRes *workerResult
+var curOut string
 
 type crashNote struct {
 	hangNote
@@ -317,6 +319,34 @@ func hangLimit() time.Duration { return time.Duration(envInt("VERIF_HANG_S", 60)
 // step counting, so a generous wall-clock limit per run (normal runs take
 // milliseconds) ends the process with status 3; the parent then re-executes
 // exactly that run in a fresh process and only reports it if it hangs again.
+// armWatchdogFn arms the same CPU-aware watchdog with a custom action.
+func armWatchdogFn(action func()) *watchdog {
+	wd := &watchdog{}
+	cpu0 := cpuSeconds()
+	periods := 0
+	var fire func()
+	fire = func() {
+		periods++
+		used := cpuSeconds() - cpu0
+		if used < hangLimit().Seconds()/4 && periods < 30 {
+			wd.mu.Lock()
+			if !wd.stopped {
+				wd.t = time.AfterFunc(hangLimit(), fire)
+			}
+			wd.mu.Unlock()
+			return
+		}
+		wd.mu.Lock()
+		stopped := wd.stopped
+		wd.mu.Unlock()
+		if !stopped {
+			action()
+		}
+	}
+	wd.t = time.AfterFunc(hangLimit(), fire)
+	return wd
+}
+
 func armWatchdog(marker, prop, tier string, base, rs uint64, w, r int) *watchdog {
 	wd := &watchdog{}
 	cpu0 := cpuSeconds()
@@ -389,6 +419,7 @@ func cmdWorker(args []string) int {
 	loadKnown()
 	if *out != "" {
 		hangMarker = *out + ".hang"
+		curOut = *out
 	}
 	spec := registry()[*prop]
 	if spec == nil {
@@ -417,6 +448,7 @@ func runSeed(base uint64, w, r int) uint64 { return core.Mix(base, uint64(w), ui
 func workerLoop(spec *propSpec, prop, tier string, seed uint64, w, first, runs int) *workerResult {
 	t0 := time.Now()
 	res := &workerResult{Prop: prop, Faults: map[string]int64{}, Probes: map[string]int64{}, KnownHits: map[string]int64{}, AbortedKeys: map[string]int64{}}
+	curRes = res
 	stats := core.NewStats()
 	sigs := map[uint64]struct{}{}
 	nsigs := map[uint64]struct{}{}
@@ -533,11 +565,37 @@ func countDraws(t map[string][]uint32) int {
 func shrinkAndRecord(spec *propSpec, prop, tier string, base, rs uint64, w int, v core.Violation, o runOutcome) violationReport {
 	key := v.Key()
 	stats := core.NewStats()
+	best := o.Tape
+	// A shrink candidate may itself send the library into an endless loop (a
+	// different defect than the one being minimised). Guard every candidate:
+	// on expiry, record the violation with the best tape found so far, hand the
+	// partial result to the parent and end this worker.
+	giveUp := func() {
+		rf := replayFile{Format: 1, Property: v.Property, Class: v.Class, Site: v.Site, Scenario: spec.Scenario, Tier: tier, BaseSeed: base, RunSeed: rs,
+			Tape: best, Violation: v, RepoTree: repoTree(), ShrunkFrom: countDraws(o.Tape), ShrunkTo: countDraws(best),
+			Note: "minimisation was cut short: one of the candidate runs did not terminate (a second, different defect); the tape is the best one found until then"}
+		b, _ := json.MarshalIndent(rf, "", " ")
+		sum := sha256.Sum256([]byte(key + fmt.Sprint(rs)))
+		path := filepath.Join(verifDir, "replays", fmt.Sprintf("%s-%d-%s.json", prop, base, hex.EncodeToString(sum[:4])))
+		os.MkdirAll(filepath.Dir(path), 0o755)
+		os.WriteFile(path, b, 0o644)
+		if curRes != nil && curOut != "" {
+			curRes.Violations = append(curRes.Violations, violationReport{Violation: v, RunSeed: rs, ReplayFile: path, ShrunkFrom: countDraws(o.Tape), ShrunkTo: countDraws(best), WorkerIndex: w})
+			if rb, err := json.Marshal(curRes); err == nil {
+				os.WriteFile(curOut, rb, 0o644)
+			}
+		}
+		fmt.Fprintf(os.Stderr, "verifsim: a minimisation candidate for %s did not terminate; recorded the violation with the tape found so far\n", key)
+		os.Exit(0)
+	}
 	test := func(rec map[string][]uint32) bool {
+		wd := armWatchdogFn(giveUp)
+		defer wd.Stop()
 		t := core.NewReplayTape(rs, rec)
 		oo := runOne(spec, prop, tier, t, stats, false)
 		for _, vv := range oo.Viols {
 			if vv.Key() == key {
+				best = oo.Tape
 				return true
 			}
 		}
@@ -557,8 +615,10 @@ func shrinkAndRecord(spec *propSpec, prop, tier string, base, rs uint64, w int, 
 		}, 3000)
 	}
 	// final rendering
+	wdF := armWatchdogFn(giveUp)
 	t := core.NewReplayTape(rs, rec)
 	oo := runOne(spec, prop, tier, t, stats, true)
+	wdF.Stop()
 	vv := v
 	for _, x := range oo.Viols {
 		if x.Key() == key {
@@ -767,6 +827,9 @@ func cmdCheck(args []string) int {
 							var hn hangNote
 							if json.Unmarshal(hb, &hn) == nil {
 								sr.hangs = append(sr.hangs, hn)
+								if len(sr.hangs) >= 2 {
+									break // enough evidence from this slot; do not keep feeding runs into an endless loop
+								}
 								// skip the hanging run and carry on behind it
 								first = hn.R + 1 - chunk
 								continue
